@@ -150,6 +150,27 @@ GRAPHS['statement_keywords'] = {
     ('instance', 'Instance_Based_Operation'): [('assign', A(SELF, 'val'), B('+', A(SELF, 'val'), P('P1'))), RET(P('P2'))],
     ('bridge', 'Br'): [('select', 'any', 'k', 'Class', None), seta('k', 'val', B('+', A(V('k'), 'val'), P('x')))],
     ('function', 'F2'): [('select', 'any', 'k', 'Class', None), seta('k', 'val', B('+', A(V('k'), 'val'), P('x')))]}
+GRAPHS['derived_population'] = {
+    # a derived attribute whose value depends on state OUTSIDE the receiving instance (the class population): it is
+    # recomputed on every read, also when nothing was written to the instance in between
+    ('function', 'F1'): [('select', 'any', 'c', 'Class', None), let('d1', A(V('c'), 'Derived_Attribute')),
+                         ('create', 'c2', 'Class'), let('d2', A(V('c'), 'Derived_Attribute')),
+                         ('create', 'c3', 'Class'), seta('c3', 'val', P('a')), let('d3', A(V('c'), 'Derived_Attribute')),
+                         ('delete', 'c2'), let('d4', A(V('c'), 'Derived_Attribute')),
+                         RET(B('+', B('*', V('d1'), I(1000000)), B('+', B('*', V('d2'), I(10000)), B('+', B('*', V('d3'), I(100)), V('d4')))))],
+    ('derived',): [('select', 'many', 'everything', 'Class', None), ('select', 'many', 'big', 'Class', B('>', A(SEL, 'val'), I(5))),
+                   ('assign', A(SELF, 'Derived_Attribute'), B('+', B('*', U('cardinality', V('everything')), I(10)), U('cardinality', V('big'))))]}
+GRAPHS['nested_arguments'] = {
+    # an invocation among the LATER arguments of another invocation: each parameter list is bound on its own
+    ('function', 'F1'): [let('x', call('class', 'Class', 'Class_Based_Operation', P1=I(1), P2=call('class', 'Class', 'Class_Based_Operation', P1=P('a'), P2=P('b')))),
+                         let('y', FN('F2', x=B('+', FN('F2', x=P('a')), FN('F2', x=I(3))))),
+                         ('select', 'any', 'c', 'Class', None),
+                         let('z', call('instance', V('c'), 'Instance_Based_Operation', P1=P('b'), P2=call('bridge', 'MYEE', 'Br', x=call('class', 'Class', 'Class_Based_Operation', P1=I(2), P2=P('a'))))),
+                         RET(B('+', B('*', V('x'), I(1000000)), B('+', B('*', V('y'), I(1000)), V('z'))))],
+    ('class', 'Class_Based_Operation'): [RET(B('+', B('*', P('P1'), I(100)), P('P2')))],
+    ('instance', 'Instance_Based_Operation'): [RET(B('-', P('P1'), P('P2')))],
+    ('bridge', 'Br'): [RET(B('+', P('x'), I(1)))],
+    ('function', 'F2'): [RET(B('*', P('x'), I(2)))]}
 G = GRAPHS[GRAPH]
 STYLE = PARAMS.get('style', 'lower')
 BP = None
